@@ -1,2 +1,16 @@
 import OsyrisProofs.C01
-#print axioms Osyris.C01.placeholder
+#print axioms Osyris.Readers.amr_header_aligned_nb0
+#print axioms Osyris.Readers.amr_header_aligned_nbpos
+#print axioms Osyris.Readers.amr_own_block_aligned_1
+#print axioms Osyris.Readers.amr_own_block_aligned_2
+#print axioms Osyris.Readers.amr_own_block_aligned_3
+#print axioms Osyris.Readers.amr_stepover_advance
+#print axioms Osyris.Readers.hydro_header_aligned
+#print axioms Osyris.Readers.grav_header_advance
+#print axioms Osyris.Readers.rt_header_advance
+#print axioms Osyris.Readers.domain_header_advance
+#print axioms Osyris.Readers.readVars_spec
+#print axioms Osyris.Readers.var_stepover_eq_block
+#print axioms Osyris.C01.C01_units_lib_is_reference
+#print axioms Osyris.C01.C01_units_lib_consistent
+#print axioms Osyris.C01.C01_leaf_rule
